@@ -593,3 +593,54 @@ fn find_subselectors() {
     }}
     println!("NO-WITNESS find_subselectors");
 }
+
+/// bounded stand-in for the string-search part of C07 (find_text, find_text_nocase, split_text, trim_text - functions whose
+/// meaning is std's string search, outside the verifier's reach): on every sub-range of 6 short texts over 1-4 byte
+/// codepoints, with 7 needles / delimiters, the result equals the plain string operation on that substring, at the
+/// absolute codepoint offsets where the text occurs, in order and inside the range
+#[test]
+fn find_text_ops() {
+    let texts = ["a b c d", "abab", "é €€ 𝄞 é", "xXxX", "  ab  ", ""];
+    let needles = ["a", "ab", " ", "€", "é", "X", "b c"];
+    for text in texts {
+        let store = AnnotationStore::default().with_resource(TextResourceBuilder::new().with_id("r").with_text(text)).unwrap();
+        let res = store.resource("r").unwrap();
+        let chars: Vec<char> = text.chars().collect();
+        let n = chars.len();
+        for b in 0..=n { for e in b..=n {
+            let sub: String = chars[b..e].iter().collect();
+            let whole = b == 0 && e == n;
+            let sel = if whole { None } else { match res.textselection(&Offset::simple(b, e)) { Ok(s) => Some(s), Err(_) => continue } };
+            let charpos = |byte: usize| b + sub[..byte].chars().count();
+            for needle in needles {
+                // find_text: non-overlapping occurrences, left to right (str::match_indices)
+                let want: Vec<(usize, usize)> = sub.match_indices(needle).map(|(i, m)| (charpos(i), charpos(i + m.len()))).collect();
+                let got: Vec<(usize, usize)> = match &sel { None => res.find_text(needle).map(|t| (t.begin(), t.end())).collect(), Some(s) => s.find_text(needle).map(|t| (t.begin(), t.end())).collect() };
+                if got != want { println!("WITNESS {{\"clause\":\"find_text\",\"text\":{:?},\"range\":\"{}..{}\",\"needle\":{:?},\"got\":\"{:?}\",\"want\":\"{:?}\"}}", text, b, e, needle, got, want); return; }
+                // find_text_nocase (texts here keep their length under lower-casing)
+                let lsub = sub.to_lowercase(); let lneedle = needle.to_lowercase();
+                if lsub.chars().count() == sub.chars().count() {
+                    let lcharpos = |byte: usize| b + lsub[..byte].chars().count();
+                    let want: Vec<(usize, usize)> = lsub.match_indices(lneedle.as_str()).map(|(i, m)| (lcharpos(i), lcharpos(i + m.len()))).collect();
+                    let got: Vec<(usize, usize)> = match &sel { None => res.find_text_nocase(needle).map(|t| (t.begin(), t.end())).collect(), Some(s) => s.find_text_nocase(needle).map(|t| (t.begin(), t.end())).collect() };
+                    if got != want { println!("WITNESS {{\"clause\":\"find_text_nocase\",\"text\":{:?},\"range\":\"{}..{}\",\"needle\":{:?},\"got\":\"{:?}\",\"want\":\"{:?}\"}}", text, b, e, needle, got, want); return; }
+                }
+                // split_text: consecutive pieces that, with the delimiters, cover the range
+                let mut want = vec![]; let mut pos = b;
+                for piece in sub.split(needle) { let l = piece.chars().count(); want.push((pos, pos + l)); pos += l + needle.chars().count(); }
+                let got: Vec<(usize, usize)> = match &sel { None => res.split_text(needle).map(|t| (t.begin(), t.end())).collect(), Some(s) => s.split_text(needle).map(|t| (t.begin(), t.end())).collect() };
+                if got != want { println!("WITNESS {{\"clause\":\"split_text\",\"text\":{:?},\"range\":\"{}..{}\",\"delimiter\":{:?},\"got\":\"{:?}\",\"want\":\"{:?}\"}}", text, b, e, needle, got, want); return; }
+            }
+            // trim_text
+            for set in [vec![' '], vec!['a', ' '], vec!['é', 'x', 'X']] {
+                let trimmed = sub.trim_matches(|c| set.contains(&c));
+                let lead = sub.len() - sub.trim_start_matches(|c| set.contains(&c)).len();
+                let want = if trimmed.is_empty() && !sub.is_empty() { None } else { Some((charpos(lead), charpos(lead) + trimmed.chars().count())) };
+                let got = match &sel { None => res.trim_text(&set).ok().map(|t| (t.begin(), t.end())), Some(s) => s.trim_text(&set).ok().map(|t| (t.begin(), t.end())) };
+                let ok = match (got, want) { (Some(g), Some(w)) => g == w, (g, None) => g.map(|(x, y)| x == y).unwrap_or(true), (None, Some(w)) => w.0 == w.1 };
+                if !ok { println!("WITNESS {{\"clause\":\"trim_text\",\"text\":{:?},\"range\":\"{}..{}\",\"chars\":\"{:?}\",\"got\":\"{:?}\",\"want\":\"{:?}\"}}", text, b, e, set, got, want); return; }
+            }
+        }}
+    }
+    println!("NO-WITNESS find_text_ops");
+}
